@@ -11,7 +11,7 @@
 (***************************************************************************)
 EXTENDS Pyxis, Props, Json
 
-CONSTANTS NB0, Variants, WithB1, B1Vft, Clash, DDs, DDVft, Ptrs, Split, Lead, EmptyBlocks, B1Names, SameName, XdNames, SameName
+CONSTANTS NB0, Variants, WithB1, B1Vft, Clash, DDs, DDVft, Ptrs, Split, Lead, EmptyBlocks, B1Names, SameName, XdNames, Packs
 
 Leaf(n) == Field(n, "pub", <<>>, TCPtr(TNm("u8")), None, FALSE)
 (* base fields carry a doc comment: it is an attribute next to `base`, in either order *)
@@ -59,19 +59,21 @@ MD == Func("md", "pub", <<>>, <<ArgM, Arg("v", TNm("i64"))>>, TNone, 393216, Non
 (* a function without receiver: derived types forward it through the type of the base field, not through `self` *)
 S0 == Func("s0", "pub", <<>>, <<Arg("v", TNm("u32"))>>, TNm("u32"), 524288, None, "")
 
-MkInput(ptr, nb0, v, k, b1, b1v, clash, dd, ddv, split, lead, eb, dvis, b1n, xdn) ==
-  LET B0 == [TypeDef("B0", "pub", <<Leaf("x0")>>) EXCEPT !.vft = IF nb0 > 0 \/ eb THEN Vft(None, BaseFuncs(nb0)) ELSE NoVft]
+MkInput(ptr, nb0, v, k, b1, b1v, clash, dd, ddv, split, lead, eb, dvis, b1n, xdn, pk) ==
+  LET B0 == [TypeDef("B0", "pub", <<Leaf("x0")>>) EXCEPT !.vft = IF nb0 > 0 \/ eb THEN Vft(None, BaseFuncs(nb0)) ELSE NoVft, !.packed = pk]
       B1 == [TypeDef("B1", "pub", <<Leaf("x1")>>) EXCEPT !.vft = IF b1v THEN Vft(None, <<H1>>) ELSE NoVft]
       (* dvis: the intermediate type need not be public for its own bases' functions to reach DD *)
       D == [TypeDef("D", dvis, (IF lead THEN <<Leaf("tag")>> ELSE <<>>) \o <<BaseF("b0", "B0")>> \o (IF b1 THEN <<BaseF(b1n, "B1")>> ELSE <<>>) \o <<Leaf(xdn)>>)
-              EXCEPT !.vft = DBlock(nb0, v, k)]
+              (* pk: the whole chain is packed (a packed type can only embed packed types) *)
+              EXCEPT !.vft = DBlock(nb0, v, k), !.packed = pk]
       (* "twin": the same type as first and as second base (the virtual functions of the second one are forwarded, renamed) *)
       DD == [TypeDef("DD", "pub", <<BaseF("d", "D")>> \o (IF dd = "diamond" THEN <<BaseF("e", "B0")>> ELSE IF dd = "twin" THEN <<BaseF("d2", "D")>> ELSE <<>>) \o <<Leaf("y")>>)
                (* with its own block: D's, or (when D only inherits its table) the base functions again plus one *)
                (* "flat": the same without the written indices -- compatible only when the base table has no gap *)
                EXCEPT !.vft = IF ddv = "no" THEN NoVft
                               ELSE IF ddv = "flat" THEN Vft(None, Append([i \in DOMAIN BaseFuncs(nb0) |-> [BaseFuncs(nb0)[i] EXCEPT !.index = None]], G))
-                              ELSE IF D.vft.has THEN D.vft ELSE Vft(None, Append(BaseFuncs(nb0), G))]
+                              ELSE IF D.vft.has THEN D.vft ELSE Vft(None, Append(BaseFuncs(nb0), G)),
+                      !.packed = pk]
       defs == <<B0>> \o (IF b1 THEN <<B1>> ELSE <<>>) \o <<D>> \o (IF dd = "none" THEN <<>> ELSE <<DD>>)
       (* "renamed2": B0 itself has a public function called like the renamed m0 of B1 *)
       impls == <<Impl("B0", <<M0(<<>>), P0, S0>> \o (IF clash = "renamed2" THEN <<[MD EXCEPT !.name = b1n \o "_m0"]>> ELSE <<>>))>>
@@ -101,7 +103,7 @@ MCInit ==
   /\ \/ (SameName /\ \E ptr \in Ptrs : input = MkSameName(ptr))
      \/ \E ptr \in Ptrs, nb0 \in NB0, v \in Variants, k \in 1..2, b1 \in WithB1, b1v \in B1Vft,
         clash \in Clash, dd \in DDs, ddv \in DDVft, split \in Split, lead \in Lead, eb \in EmptyBlocks, dvis \in {"pub", "priv"},
-        b1n \in B1Names, xdn \in XdNames :
+        b1n \in B1Names, xdn \in XdNames, pk \in Packs :
         (* D's own field may be called `vftable`: legal as long as D does not own a pointer field of that name; the accessor *)
         (* still goes through the base                                                                                      *)
         /\ (xdn # "xd" => (~b1 /\ ~lead /\ ~split /\ dvis = "pub" /\ clash = "no" /\ v \in {"none", "same", "ext"} /\ ddv = "no"))
@@ -120,8 +122,11 @@ MCInit ==
         /\ (dd = "twin" => (ddv = "no" /\ ~b1 /\ ~lead /\ ~split /\ dvis = "pub" /\ clash = "no" /\ v \in {"none", "same", "ext"}))
         /\ (ddv = "flat" => (v = "none" /\ nb0 = 3))
         /\ (eb => nb0 = 0)
-        /\ (lead => (dd = "none" /\ clash = "no" /\ ~b1v))
-        /\ input = MkInput(ptr, nb0, v, k, b1, b1v, clash, dd, ddv, split, lead, eb, dvis, b1n, xdn)
+        /\ (lead => ((dd = "none" \/ pk) /\ clash = "no" /\ ~b1v))
+        (* a packed chain, also three levels deep with a field in front of the base of the middle type *)
+        /\ (pk => (~b1 /\ clash = "no" /\ dvis = "pub" /\ xdn = "xd" /\ ~split /\ ~eb /\ v \in {"none", "same", "ext"}
+                    /\ ddv = "no" /\ dd \in {"none", "plain"} /\ nb0 \in {1, 2}))
+        /\ input = MkInput(ptr, nb0, v, k, b1, b1v, clash, dd, ddv, split, lead, eb, dvis, b1n, xdn, pk)
   /\ InitRest
 
 MCSpec == MCInit /\ [][Next]_vars /\ WF_vars(Next)
